@@ -32,7 +32,7 @@ echo "demo: with patch rc=$rcw, without patch rc=$rco"
 # run the registered check against /repo with the patch applied
 git -C /repo apply $out/patch.diff
 ( cd /verif && GOVC_OUT=/tmp/confirm-out.$$ bin/govc check -p $prop ) > $log.check 2>&1; rcc=$?
-git -C /repo checkout -- .
+git -C /repo apply -R $out/patch.diff
 rm -rf /tmp/confirm-out.$$
 grep -E "^VIOLATION|^govc:" $log.check | cut -c1-220 | head -8
 echo "check exit=$rcc"
